@@ -19,7 +19,8 @@ SOURCES = {"hta/analyzers/critical_path_analysis.py": ["CriticalPathAnalysis", "
            "hta/common/trace_parser.py": ["parse_trace_dict"]}
 N_CASES = {"quick": 200, "thorough": 3000}
 RULE = ("four kinds of generated case: overlay (causally consistent traces and windows as C08, both file formats, all 8 combinations of only_show_critical_events / "
-        "show_all_edges / CRITICAL_PATH_SHOW_ZERO_WEIGHT_LAUNCH_EDGE, with and without zero-weight launch edges in the graph), counters (queue profiles, both "
+        "show_all_edges / CRITICAL_PATH_SHOW_ZERO_WEIGHT_LAUNCH_EDGE, with and without zero-weight launch edges in the graph; then, on the same TraceAnalysis object, a "
+        "second analysis over another window overlaid after the first, and the trace with counters written after the overlays), counters (queue profiles, both "
         "formats), file (random documents: key order, distributedInfo present / absent / with other fields, unicode, floats, nested args, both formats; write -> "
         "read, one or two rank updates), discovery (1-4 files written by the tool's writer or json.dump, compact or indented, both formats, with and without "
         "metadata, duplicate ranks, and the adversarial class: an event argument named \"rank\" earlier in the text than the metadata). Every written file is read "
@@ -218,6 +219,39 @@ def _run_overlay(case, d):
         outs.append(o)
     os.environ.pop("CRITICAL_PATH_SHOW_ZERO_WEIGHT_LAUNCH_EDGE", None)
     res["overlays"] = outs
+    # histories on the one TraceAnalysis object: (a) a second analysis over another window, overlaid after the first;
+    # (b) the trace with counters written after the overlays: its source part must carry no marker at all
+    try:
+        ann2, inst2 = ("", None) if res["annotation"] != "" else ("ProfilerStep", None)
+        rows = res["rows"]
+        if cp.window_has_events(rows, ann2, inst2):
+            out2 = ta.critical_path_analysis(rank=rank, annotation=ann2, instance_id=inst2)
+            if out2 is not None and out2[1]:
+                g2 = out2[0]
+                o = {"only_crit": False, "show_all": False, "zw_show": False, "graph": cp.dump_graph(g2), "second_window": [ann2, inst2]}
+                path = ta.overlay_critical_path_analysis(rank, g2, os.path.join(d, "ov_second"), only_show_critical_events=False, show_all_edges=False)
+                evs = _read_tool(path)["traceEvents"]
+                nflow = 0
+                while nflow < len(evs) and _is_cp_flow(evs[len(evs) - 1 - nflow]):
+                    nflow += 1
+                head, tail = evs[:len(evs) - nflow], evs[len(evs) - nflow:]
+                o["head"] = [[it.tok(e), 1 if (isinstance(e.get("args"), dict) and e["args"].get("critical", 0) == 1) else 0] for e in head]
+                o["flows"] = [[1 if e["ph"] == "s" else 0, e.get("id"), _int(e.get("pid")), _int(e.get("tid")), e.get("ts"), CAT.get(e.get("cat"), -1),
+                               (e.get("args") or {}).get("weight"), 1 if (e.get("args") or {}).get("critical") else 0, e.get("name"),
+                               sorted(k2 for k2 in e.keys())] for e in tail]
+                outs.append(o)
+    except Exception as e:
+        import traceback
+        if not (isinstance(e, AssertionError)):
+            res["second_error"] = type(e).__name__ + ": " + str(e)[:200] + " @ " + traceback.format_exc()[-300:]
+    try:
+        ta.generate_trace_with_counters(ranks=[rank])
+        out_path = src_path.replace(".json", "_with_counters.json")
+        if os.path.exists(out_path):
+            evs = _read_tool(out_path)["traceEvents"][:len(src)]
+            res["counters_after_overlay"] = [[it.tok(e), 1 if (isinstance(e.get("args"), dict) and e["args"].get("critical", 0) == 1) else 0] for e in evs]
+    except Exception as e:
+        res["counters_after_error"] = type(e).__name__ + ": " + str(e)[:200]
     return res
 
 
@@ -416,13 +450,20 @@ def coq_term(case, impl):
     if kind == "overlay":
         if "overlays" not in impl:
             return "0"
-        g = impl["graph"]
-        N = pC08.nodes_lit(g)
-        all_e = "[" + "; ".join(f"mkE {fw.z(be[0])} {fw.z(be[1])} {fw.z(w)} {TY[t]}" for u, v, w, _wa, t, be in sorted(g["edges"], key=lambda e: (e[5], e[2], e[4]))) + "]"
-        cp_e = "[" + "; ".join(f"mkE {fw.z(u)} {fw.z(v)} {fw.z(w)} {TY[t]}" for u, v, w, t in g["cp_edges"]) + "]"
+        def graph_lits(g):
+            N = pC08.nodes_lit(g)
+            all_e = "[" + "; ".join(f"mkE {fw.z(be[0])} {fw.z(be[1])} {fw.z(w)} {TY[t]}" for u, v, w, _wa, t, be in sorted(g["edges"], key=lambda e: (e[5], e[2], e[4]))) + "]"
+            cp_e = "[" + "; ".join(f"mkE {fw.z(u)} {fw.z(v)} {fw.z(w)} {TY[t]}" for u, v, w, t in g["cp_edges"]) + "]"
+            return N, cp_e, all_e, fw.zl(g["cp_events"])
+        N, cp_e, all_e, crit = graph_lits(impl["graph"])
         src = "[" + ";\n    ".join(_w_lit(x) for x in impl["src"]) + "]"
-        crit = fw.zl(g["cp_events"])
-        terms = [f"encode_overlay {fw.b(o['only_crit'])} {fw.b(o['show_all'])} {fw.b(o['zw_show'])} src crit nodes cpe alle" for o in impl["overlays"]]
+        terms = []
+        for o in impl["overlays"]:
+            if "graph" in o:
+                N2, cp2, all2, crit2 = graph_lits(o["graph"])
+                terms.append(f"encode_overlay {fw.b(o['only_crit'])} {fw.b(o['show_all'])} {fw.b(o['zw_show'])} src {crit2} {N2} {cp2} {all2}")
+            else:
+                terms.append(f"encode_overlay {fw.b(o['only_crit'])} {fw.b(o['show_all'])} {fw.b(o['zw_show'])} src crit nodes cpe alle")
         return f"(let src := {src} in let crit := {crit} in let nodes := {N} in let cpe := {cp_e} in let alle := {all_e} in [{'; '.join(terms)}])"
     if kind == "counters":
         ts = []
@@ -475,7 +516,8 @@ def compare(case, impl, model):
         if "overlays" not in impl:
             return []
         for o, (wf, items) in zip(impl["overlays"], model):
-            opt = f"only_show_critical_events={o['only_crit']} show_all_edges={o['show_all']} SHOW_ZERO_WEIGHT={o['zw_show']} {w}"
+            opt = f"only_show_critical_events={o['only_crit']} show_all_edges={o['show_all']} SHOW_ZERO_WEIGHT={o['zw_show']} {w}" + \
+                (f" second window {o['second_window']} analysed and overlaid after the first" if "second_window" in o else "")
             if "error" in o:
                 disc.append(f"overlay raised / unreadable: {o['error'][:300]} [{opt}]")
                 continue
@@ -502,6 +544,17 @@ def compare(case, impl, model):
                             f"as (pid, tid, ts, type, weight, critical) [{opt}]")
             if not o.get("other_keys_same", True):
                 disc.append(f"keys other than traceEvents differ from the source [{opt}]")
+        if "second_error" in impl:
+            disc.append(f"second analysis / overlay on the same object raised {impl['second_error'][:300]} {w}")
+        if "counters_after_error" in impl:
+            disc.append(f"generate_trace_with_counters after the overlays raised {impl['counters_after_error']} {w}")
+        if "counters_after_overlay" in impl:
+            want = [[x["tok"], 1 if x["crit"] else 0] for x in impl["src"]]
+            got = impl["counters_after_overlay"]
+            if got != want:
+                k = next((i for i, (a, b) in enumerate(zip(got, want)) if a != b), min(len(got), len(want)))
+                disc.append(f"trace with counters written after the overlays: source part differs from the source at position {k}: {got[k:k + 2]} vs {want[k:k + 2]} "
+                            f"as (event token, critical) {w}")
         return disc[:6]
     if kind == "counters":
         if "error" in impl:
